@@ -294,6 +294,81 @@ fn main() {
             shard_lists[s].push(format!("(db{}, cs{})", k, k));
         }
     }
+    // ---- DOUBLE PRECISION keys (outside the reference subset: the twin comparison is the oracle) ----
+    // The index code normalises numeric keys to doubles and steps exclusive bounds to "the next value";
+    // fractional keys, integer-valued keys next to them and literals of either numeric type exercise that.
+    let ndbl = if args.thorough { 600 } else { 90 };
+    for k in 0..ndbl {
+        let mut r = Rng::new(args.seed, &format!("c02/dbl/{}", k));
+        let mut a = Database::new();
+        let mut b = Database::new();
+        for db in [&mut a, &mut b] {
+            sql::must(db, "CREATE TABLE td (a DOUBLE PRECISION, b INTEGER, c DOUBLE PRECISION)");
+        }
+        let nrows = 4 + r.below(14) as usize;
+        let base = 100 + r.range(0, 30);
+        let rows: Vec<String> = (0..nrows)
+            .map(|_| {
+                let q = |r: &mut Rng| if r.chance(1, 8) { "NULL".to_string() } else { format!("{:?}", (base * 4 + r.range(0, 12)) as f64 / 4.0 + if r.chance(1, 6) { 0.11 } else { 0.0 }) };
+                format!("({}, {}, {})", q(&mut r), if r.chance(1, 8) { "NULL".to_string() } else { r.range(0, 5).to_string() }, q(&mut r))
+            })
+            .collect();
+        let ins = format!("INSERT INTO td VALUES {}", rows.join(", "));
+        sql::must(&mut a, &ins);
+        sql::must(&mut b, &ins);
+        let ddl = match r.below(5) {
+            0 => "CREATE INDEX ixd ON td (a)".to_string(),
+            1 => "CREATE INDEX ixd ON td (a, b)".to_string(),
+            2 => "CREATE INDEX ixd ON td (a, c)".to_string(),
+            3 => "CREATE INDEX ixd ON td (a DESC, b)".to_string(),
+            _ => "CREATE INDEX ixd ON td (c, a)".to_string(),
+        };
+        if !sql::exec(&mut a, &ddl).is_ok() {
+            continue;
+        }
+        sum.count("history:double-keys");
+        for _ in 0..10 {
+            let col = if ddl.contains("(c,") { "c" } else { "a" };
+            let whole = base + r.range(0, 3);
+            let lit = match r.below(4) {
+                0 => format!("{}", whole),
+                1 => format!("{}.0", whole),
+                2 => format!("{:?}", whole as f64 + 0.25 * r.range(0, 4) as f64),
+                _ => format!("{:?}", whole as f64 + 0.5),
+            };
+            let pred = match r.below(8) {
+                0 => format!("{} > {}", col, lit),
+                1 => format!("{} >= {}", col, lit),
+                2 => format!("{} < {}", col, lit),
+                3 => format!("{} <= {}", col, lit),
+                4 => format!("{} < {}", lit, col),
+                5 => format!("{} > {} AND {} < {}", col, lit, col, whole + 1),
+                6 => format!("{} BETWEEN {} AND {}", col, lit, whole + 2),
+                _ => format!("{} = {}", col, lit),
+            };
+            let ordered = r.chance(1, 2);
+            let text = format!("SELECT a, b, c FROM td WHERE {}{}", pred, if ordered { format!(" ORDER BY {}", col) } else { String::new() });
+            let this = id;
+            id += 1;
+            let (oa, ob) = (sql::exec(&mut a, &text), sql::exec(&mut b, &text));
+            sum.evaluations += 2;
+            let case = json!({"classes": Vec::<&str>::new(), "history": [ins.clone(), format!("[indexed side only] {}", ddl)], "index_ddl": [ddl.clone()], "sql": text, "indexed": format!("{:?}", oa.rows().map(|x| sql::canon_seq(x))), "plain": format!("{:?}", ob.rows().map(|x| sql::canon_seq(x)))});
+            log.log(this, case.clone());
+            match (oa.rows(), ob.rows()) {
+                (Some(ra), Some(rb)) => {
+                    let differs = sql::canon_bag(ra) != sql::canon_bag(rb) || (ordered && ra.iter().map(|x| sql::canon_value(&x[if col == "a" { 0 } else { 2 }])).collect::<Vec<_>>() != rb.iter().map(|x| sql::canon_value(&x[if col == "a" { 0 } else { 2 }])).collect::<Vec<_>>());
+                    if differs {
+                        sum.finding("index-changes-result", this, "the same query on the same data returns different rows (or a different key order) when indexes exist".into(), case.clone());
+                    }
+                    if !rb.is_empty() && rb.len() < nrows {
+                        sum.nontrivial(&format!("dbl|{}|{}|{}", ins, ddl, text));
+                    }
+                }
+                (None, None) => sum.count("query:both-error"),
+                _ => sum.finding("index-changes-result", this, "the query succeeds on one side only".into(), case.clone()),
+            }
+        }
+    }
     if args.only.is_none() {
         for s in 0..nshards {
             if !shard_lists[s].is_empty() {
